@@ -399,6 +399,15 @@ def stack(arrays, axis=None, keys=None, align=False, **kwargs):
     # match dimensions by name, never by position
     arrays = [a if a.dims == arrays[0].dims or set(a.dims) != set(arrays[0].dims) else a.transpose(arrays[0].dims) for a in arrays]
 
+    # singleton axes are exempt from the alignment test in _get_axes (they may be broadcast):
+    # still refuse two labelled singleton axes whose labels differ
+    for a in arrays[1:]:
+        for ax in a.axes:
+            if ax.name in arrays[0].dims and ax.size == 1 and arrays[0].axes[ax.name].size == 1:
+                lab, lab0 = ax.values[0], arrays[0].axes[ax.name].values[0]
+                if lab is not None and lab0 is not None and lab != lab0:
+                    raise ValueError('axes are not aligned\n ==> Try passing `align=True`')
+
     # make it a numpy array
     data = [a.values for a in arrays]
     data = np.array(data)
